@@ -28,6 +28,12 @@ MenuW3 == {<<Teardown(""), Destroy(""), Create("")>>, <<Create("A")>>, <<Teardow
            <<Modify("t3", "")>>}
 ProgramsC04 == {[a \in A3 |-> IF a = 1 THEN p1 ELSE IF a = 2 THEN p2 ELSE p3] : p1 \in MenuW1, p2 \in MenuW2, p3 \in MenuW3}
 
+(* C04, create / destroy races around the create path of Modify and the retry loops (used by the generator only) *)
+MenuR1 == {<<Modify("t1", "")>>, <<Uwc("t1", "", "any")>>, <<Modify("t1", ""), Modify("t4", "")>>}
+MenuR2 == {<<Create(""), Destroy("")>>, <<Create(""), Destroy(""), Create("")>>, <<Destroy(""), Create(""), Destroy("")>>}
+MenuR3 == {<<Modify("t3", "")>>, <<Destroy(""), Create("")>>, <<AddFin("f"), RemFin("f")>>}
+ProgramsRace == {[a \in A3 |-> IF a = 1 THEN p1 ELSE IF a = 2 THEN p2 ELSE p3] : p1 \in MenuR1, p2 \in MenuR2, p3 \in MenuR3}
+
 (* liveness configuration: the interfering actor ends with the finalizer removed *)
 ProgramsLive == {[a \in {1, 2} |-> IF a = 1 THEN <<Create(""), AddFin("f"), Tad("")>> ELSE p2] :
                    p2 \in {<<RemFin("f")>>, <<AddFin("g"), RemFin("g"), RemFin("f")>>, <<Teardown(""), RemFin("f")>>}}
